@@ -4,7 +4,7 @@
 From Coq Require Import ZArith Reals Lra Lia Bool.
 From Coq Require Import Uint63 Floats.
 From Flocq Require Import Core BinarySingleNaN PrimFloat Div_sqrt_error.
-From PyLib Require Import B64.
+From PyLib Require Import PyVal B64.
 Open Scope R_scope.
 
 Notation pfloat := PrimFloat.float.
@@ -757,6 +757,90 @@ Proof.
   change (1 =? 1)%float with true. rewrite andb_true_l.
   rewrite (ltb_R (abs x) c2p51 Fa fin_c2p51), abs_R, RV_c2p51, Rlt_bool_true by exact Hs.
   intros (A & B & _). rewrite Y1. unfold Rdiv. rewrite Rinv_1, !Rmult_1_r. split; assumption.
+Qed.
+
+(* ------------------------------------------- general tools for all-floats proofs *)
+Lemma RN_le a b : a <= b -> RN a <= RN b.
+Proof. apply round_le; [apply fexp64_valid | apply valid_rnd_N]. Qed.
+Lemma RN_0 : RN 0 = 0.
+Proof. apply round_0. apply valid_rnd_N. Qed.
+Lemma RN_id x : RN (RV x) = RV x.
+Proof. apply round_generic; [apply valid_rnd_N | apply fmt_RV]. Qed.
+
+(* a float below 1 is at most 1 - 2^-53 *)
+Lemma lt_one_pred v : fmt v -> v < 1 -> v <= 1 - bpow radix2 (-53).
+Proof.
+  intros Fv Hv.
+  assert (fmt 1) as F1 by (change 1 with (IZR 1); apply int_fmt; lia).
+  pose proof (pred_ge_gt radix2 fexp64 v 1 Fv F1 Hv) as H.
+  change 1 with (bpow radix2 0) in H. rewrite pred_bpow in H.
+  change (fexp64 0) with (-53)%Z in H. exact H.
+Qed.
+
+Lemma RV_60 : RV 60%float = 60.
+Proof. rewrite RV_SF. vm_compute Prim2SF. unfold SF2R, F2R. simpl. lra. Qed.
+Lemma fin_60 : fin 60%float.
+Proof. apply fin_prim. reflexivity. Qed.
+
+(* 60 times a float in [0, 1) is a float in [0, 60): the product cannot round up to 60.0 *)
+Lemma frac_times_60 f : fin f -> 0 <= RV f < 1 ->
+  RV (f * 60) = RN (RV f * 60) /\ fin (f * 60) /\ 0 <= RV (f * 60) <= 60 - bpow radix2 (-47).
+Proof.
+  intros Ff Hf.
+  set (fm := 0x1.fffffffffffffp-1%float).
+  assert (RV fm = 1 - bpow radix2 (-53)) as Hfm.
+  { unfold fm. rewrite RV_SF. vm_compute Prim2SF. unfold SF2R, F2R. simpl Fnum. simpl Fexp.
+    change (bpow radix2 (-53)) with (/ 9007199254740992). simpl bpow. field. }
+  assert (fin fm) as Ffm by (apply fin_prim; reflexivity).
+  assert (RN (RV fm * 60) = 60 - bpow radix2 (-47)) as Htop.
+  { destruct (mul_R fm 60 Ffm fin_60) as [A _].
+    - rewrite RV_60. apply RN_lt_emax. rewrite Hfm. pose proof (bpow_gt_0 radix2 (-53)).
+      assert (bpow radix2 (-53) < 1) by (change 1 with (bpow radix2 0); apply bpow_lt; reflexivity).
+      rewrite Rabs_pos_eq by nra. apply Rle_trans with (bpow radix2 6); [change (bpow radix2 6) with 64; nra | apply bpow_le; discriminate].
+    - rewrite RV_60 in A. rewrite <- A. unfold fm.
+      rewrite RV_SF. vm_compute Prim2SF. unfold SF2R, F2R. simpl Fnum. simpl Fexp.
+      change (bpow radix2 (-47)) with (/ 140737488355328). simpl bpow. field. }
+  assert (RV f <= 1 - bpow radix2 (-53)) as Hle by (apply lt_one_pred; [apply fmt_RV | lra]).
+  assert (0 <= RN (RV f * 60) <= 60 - bpow radix2 (-47)) as Hr.
+  { split.
+    - rewrite <- RN_0. apply RN_le. lra.
+    - rewrite <- Htop. apply RN_le. rewrite Hfm. lra. }
+  pose proof (bpow_gt_0 radix2 (-47)).
+  destruct (mul_R f 60 Ff fin_60) as [A B].
+  - rewrite RV_60. apply small_lt_emax. rewrite Rabs_pos_eq; lra.
+  - rewrite RV_60 in A. rewrite A. split; [reflexivity|]. split; [exact B | exact Hr].
+Qed.
+
+(* Python's float % 1 on a non-negative finite float: the exact fractional part, in [0, 1) *)
+Lemma fmod_py_1_nonneg a : fin a -> 0 <= RV a ->
+  exists f, fmod_py B0 a (b64_of_Z 1) = VFloat f /\ fin f /\
+            RV f = RV a - IZR (Zfloor (RV a)) /\ 0 <= RV f < 1.
+Proof.
+  intros Fa Ha. destruct (b64_fmod_1_value a Fa) as [Hm Fm].
+  assert (Ztrunc (RV a) = Zfloor (RV a)) as Ht by (unfold Ztrunc; rewrite Rlt_bool_false by exact Ha; reflexivity).
+  rewrite Ht in Hm.
+  pose proof (Zfloor_lb (RV a)) as Hl. pose proof (Zfloor_ub (RV a)) as Hu.
+  unfold fmod_py. cbn [f_eqb f_fmod f_signbit f_neg f_ltb f_add B0 B64ops B64opsC f0 f_of_Z].
+  change (b64_of_Z 1) with 1%float. change (b64_of_Z 0) with 0%float.
+  change (1 =? 0)%float with false. cbv iota.
+  set (m := b64_fmod a 1) in *.
+  rewrite (eqb_R m 0 Fm fin_zero), RV_zero.
+  destruct (Req_bool_spec (RV m) 0) as [Z | NZ].
+  - change (get_sign 1) with false. cbv iota. exists 0%float. rewrite RV_zero.
+    split; [reflexivity|]. split; [exact fin_zero|]. rewrite <- Hm, Z. split; [reflexivity | lra].
+  - rewrite (ltb_R m 0 Fm fin_zero), RV_zero, Rlt_bool_false by lra.
+    change (1 <? 0)%float with false. cbn [Bool.eqb].
+    exists m. split; [reflexivity|]. split; [exact Fm|]. split; [exact Hm | lra].
+Qed.
+
+(* the tests of float -> int conversion (is_nan, is_infinity) on a finite float *)
+Lemma eqb_self_fin a : fin a -> (a =? a)%float = true.
+Proof. intro Fa. rewrite (eqb_R a a Fa Fa). apply Req_bool_true. reflexivity. Qed.
+Lemma abs_not_inf a : fin a -> (abs a =? infinity)%float = false.
+Proof.
+  intro Fa. pose proof (eqb_self_fin a Fa) as E. destruct (fin_prim a) as [Hf _]. specialize (Hf Fa).
+  unfold PrimFloat.is_finite, PrimFloat.is_nan, PrimFloat.is_infinity in Hf. rewrite E in Hf. simpl in Hf.
+  destruct (abs a =? infinity)%float; [discriminate | reflexivity].
 Qed.
 
 (* ------------------------------------------------------------- assumptions *)
